@@ -355,9 +355,10 @@ impl<T: crate::EventSource> crate::EventSource for TransientSource<T> {
                 source.unregister(poll)?;
                 self.state.replace_state(|_| TransientSourceState::None);
             }
-            TransientSourceState::Replace { new, old } => {
+            TransientSourceState::Replace { old, .. } => {
+                // Only the old source has ever been registered; the new one waits for the
+                // next (re)registration.
                 old.unregister(poll)?;
-                new.unregister(poll)?;
                 self.state.replace_state(TransientSourceState::Register);
             }
             TransientSourceState::None => (),
